@@ -272,37 +272,49 @@ Proof.
     destruct (LK_malloc _ _ _ _ _ _ L Hm) as (W1 & N1 & Ha & Hfr & HU1).
     unfold lk. cbn [w_heap set_heap set_out d_newbuffer].
     split; [exact W1|]. split; [exact N1|]. split; [lia|]. rewrite HU1, HU. cbn [app]. constructor; [reflexivity|constructor]. }
-  unfold mem_dest. destruct (cf_mgr c) eqn:Hm.
+  assert (PX : forall wb, w_heap wb = w_heap w -> w_dest wb = w_dest w -> w_buf wb = w_buf w -> w_size wb = w_size w -> True) by auto.
+  destruct G as (Hrb & G).
+  unfold mem_dest. rewrite Hrb. destruct (cf_mgr c) eqn:Hm.
   - assert (Hclr : cf_clr c = true) by (destruct G as [H|H]; [congruence|exact H]).
-    rewrite Hclr. unfold mem_dest_tj. fold (d0_of w). set (d0 := d0_of w) in *.
+    rewrite Hclr. unfold mem_dest_tj. cbn [orb]. unfold mem_dest_tj_body.
+    change (w_dest (bind_out w)) with (w_dest w). change (w_buf (bind_out w)) with (w_buf w).
+    change (w_size (bind_out w)) with (w_size w). change (w_heap (bind_out w)) with (w_heap w).
+    fold (d0_of w). set (d0 := d0_of w) in *.
     set (reused := (d_buffer d0 =? w_buf w) && negb (w_buf w =? 0) && alloc).
     assert (Hnb1 : (if reused then d_newbuffer d0 else 0) < h_fresh (w_heap w)) by (destruct reused; lia).
     destruct ((w_buf w =? 0) || ((w_size w =? 0) && _)).
     + destruct alloc.
       * destruct (h_malloc (w_heap w) (out_buf_size TJ) Lib false) as [h1 a] eqn:Hmal.
-        eexists. split; [reflexivity|]. apply Fresh. exact Hmal.
+        eexists. split; [reflexivity|]. exact (Fresh TJ h1 a _ _ Hmal).
       * split; [exact W|]. split; [exact N|]. split; [exact HU|]. cbn [w_dest set_dest w_heap d_newbuffer]. exact Hnb1.
-    + eexists. split; [reflexivity|]. apply Given. exact Hnb1.
-  - unfold mem_dest_ijg. destruct ((w_buf w =? 0) || (w_size w =? 0)).
+    + eexists. split; [reflexivity|]. exact (Given _ _ _ _ _ _ Hnb1).
+  - unfold mem_dest_ijg, mem_dest_ijg_body.
+    change (w_buf (bind_out w)) with (w_buf w). change (w_size (bind_out w)) with (w_size w).
+    change (w_heap (bind_out w)) with (w_heap w).
+    destruct ((w_buf w =? 0) || (w_size w =? 0)).
     + destruct (h_malloc (w_heap w) (out_buf_size IJG) Lib false) as [h1 a] eqn:Hmal.
-      eexists. split; [reflexivity|]. apply Fresh. exact Hmal.
-    + eexists. split; [reflexivity|]. apply Given. exact W0.
+      eexists. split; [reflexivity|]. exact (Fresh IJG h1 a _ _ Hmal).
+    + eexists. split; [reflexivity|]. exact (Given _ _ _ _ _ _ W0).
 Qed.
 
 Lemma finish_lk w2 d2 st wr' e :
-  Jg (w_heap w2) (w_cur w2) (w_buf w2) d2 wr' -> lk w2 d2 ->
+  Jg (w_heap w2) (w_cur w2) (w_buf w2) d2 wr' -> lk w2 d2 -> bound_now w2 = true ->
   let w3 := set_dest d2 w2 in
   let w4 := if st_ok st || d_alloc d2 then term_destination w3 d2 else w3 in
   LK0 (set_reusable (st_ok st) (wlog e (hand_over w4))).
 Proof.
-  intros (W & NB & (b & OK & _) & _) (_ & N & Hf & HU) w3 w4.
+  intros (W & NB & (b & OK & _) & _) (_ & N & Hf & HU) Hbn w3 w4.
+  assert (Ht : term_destination w3 d2 = set_out (if d_alloc d2 then d_buffer d2 else w_buf w3) (d_bufsize d2 - d_free d2) w3)
+    by (apply term_bound; exact Hbn).
+  subst w4. rewrite Ht. clear Ht.
+  set (w4 := if st_ok st || d_alloc d2 then set_out (if d_alloc d2 then d_buffer d2 else w_buf w3) (d_bufsize d2 - d_free d2) w3 else w3).
   destruct OK as (Hblk & Hlive & Hsz & Hnew & Hna).
   pose proof (blk_range _ _ _ W Hblk) as Hrng.
   set (pbuf := w_buf w4).
   assert (Hh4 : w_heap w4 = w_heap w2) by (unfold w4; destruct (st_ok st || d_alloc d2); reflexivity).
   assert (Hd4 : w_dest w4 = Some d2) by (unfold w4; destruct (st_ok st || d_alloc d2); reflexivity).
   assert (Hp : d_alloc d2 = true -> pbuf = d_buffer d2).
-  { intros Ha. unfold pbuf, w4. rewrite Ha, orb_true_r. cbn. rewrite Ha. reflexivity. }
+  { intros Ha. unfold pbuf, w4. rewrite Ha, orb_true_r. reflexivity. }
   unfold LK0, hand_over, wlog. cbn [w_heap w_dest set_reusable set_heap]. rewrite Hh4, Hd4.
   split; [apply WF_logadd, WF_upd; [apply addr_hand_block|exact W]|].
   split; [unfold ND, h_logadd, h_upd; cbn [h_blocks]; rewrite addrs_upd by apply addr_hand_block; exact N|].
@@ -323,7 +335,7 @@ Lemma run_call_lk c alloc ops w : good_cfg c -> Inv w -> LK0 w ->
   pass_ok c alloc w = true -> zero_reuse c alloc w = false -> forallb chunk_ok ops = true ->
   LK0 (run_call c alloc ops w).
 Proof.
-  intros G HI L Hpass Hzr Hch. unfold run_call, run_call_st.
+  intros G HI L Hpass Hzr Hch. pose proof G as (Hrb & G'). unfold run_call, run_call_st.
   set (w0 := set_cur (w_buf w) w).
   assert (HI0 : Inv w0) by exact HI.
   assert (L0 : LK0 w0) by exact L.
@@ -332,15 +344,15 @@ Proof.
                | (w1, Some st) => True
                end).
   { destruct (cf_mgr c) eqn:Hm.
-    - assert (Hclr : cf_clr c = true) by (destruct G as [H|H]; [congruence|exact H]).
-      pose proof (mem_dest_tj_ok c alloc w0 Hm Hclr HI0 eq_refl Hpass Hzr) as H.
+    - assert (Hclr : cf_clr c = true) by (destruct G' as [H|H]; [congruence|exact H]).
+      pose proof (mem_dest_tj_ok c alloc w0 Hm Hclr Hrb HI0 eq_refl Hpass Hzr) as H.
       destruct (mem_dest c alloc w0) as [w1 [st|]]; [exact I|exact H].
-    - pose proof (mem_dest_ijg_ok c alloc w0 Hm HI0 eq_refl Hpass) as H.
+    - pose proof (mem_dest_ijg_ok c alloc w0 Hm Hrb HI0 eq_refl Hpass) as H.
       destruct (mem_dest c alloc w0) as [w1 [st|]]; [exact I|exact H]. }
   pose proof (mem_dest_lk c alloc w0 G L0) as ML.
   destruct (mem_dest c alloc w0) as [w1 [st|]]; cbn [fst].
   - destruct ML as (A & B & C & D). split; [exact A|]. split; [exact B|]. split; [exact C|exact D].
-  - destruct MD as (d1 & Hd1 & HJ1 & _). destruct ML as (d1' & Hd1' & Hlk1).
+  - destruct MD as (d1 & Hd1 & HJ1 & _ & _ & _ & _ & Hbn1 & _). destruct ML as (d1' & Hd1' & Hlk1).
     rewrite Hd1 in Hd1'. inversion Hd1'; subst d1'. rewrite Hd1.
     pose proof (run_ops_ok (cf_mgr c) ops w1 d1 [] HJ1 Hch) as RO.
     pose proof (run_ops_lk (cf_mgr c) ops w1 d1 Hlk1) as RL.
@@ -353,7 +365,7 @@ Proof.
       - destruct RO as (HG & _). exact HG.
       - destruct RO as (HG & _). exact HG. }
     destruct HG as (wr' & HG). cbn [fst].
-    exact (finish_lk w2 d2 st wr' _ HG RL).
+    apply (finish_lk w2 d2 st wr' _ HG RL). unfold bound_now. rewrite (framed_px _ _ F). exact Hbn1.
 Qed.
 
 Lemma free_caller_lk h a : WF h -> ND h -> U h = [] ->
@@ -373,7 +385,8 @@ Lemma run_hop_lk c o w : good_cfg c -> Inv w -> LK0 w -> w_ok (run_hop c o w) = 
   hop_chunks_ok o = true -> LK0 (run_hop c o w).
 Proof.
   intros G HI L Hok Hch.
-  destruct o as [n rc| z | | | k | | k | alloc ops]; cbn [run_hop] in *.
+  destruct o as [n rc| z | | | k | | k | alloc ops | cp k]; cbn [run_hop] in *.
+  9: { destruct cp; [exact L|]. destruct (nth k (set_nth _ _ _) (0, 0)). exact L. }
   - destruct (n <? 0) eqn:En.
     { exfalso. destruct (h_malloc _ _ _ _) in Hok. cbn in Hok. discriminate. }
     destruct (rc && can_recycle (w_heap w)) eqn:Erc.
